@@ -59,3 +59,16 @@ Theorem C01_decode_word_spec : forall next, (next = nextPrime_ctz \/ next = next
   decode_word fuel next a low = map (fun i => low + tbl bitValues (N.of_nat i)) (set_bits a).
 Proof. exact decode_word_spec. Qed.
 Print Assumptions C01_decode_word_spec.
+
+(** ... and with the three-algorithm kernel (EratSmall / EratMedium's bucket lists / EratBig's bucket machine dispatched by the
+    thresholds of initAlgorithms, sieving primes from an inner kernel fed by the tiny sieve as SievingPrimes does; Properties_C04) *)
+From PS Require Import Model.Erat3Self Proofs.Erat3SelfP.
+Theorem C01_next_calls_model_kernel3 : forall l1 maxKB nextDist prevDist maxGap cut,
+  16 <= maxKB -> maxKB <= 8192 -> cut_spec cut ->
+  forall fuel s h k it' rs,
+    s <= MAX64 ->
+    run nextDist prevDist maxGap (pg_primes (erat3_self l1 maxKB)) cut fuel (fresh_iter s h) (repeat Next k) = Done (it', rs) ->
+    let P := primes_between s MAX64 in
+    rs = map Val (firstn k P) ++ repeat Err (k - length P).
+Proof. exact next_calls_model3. Qed.
+Print Assumptions C01_next_calls_model_kernel3.
